@@ -46,9 +46,10 @@ def _alarm(signum, frame):
 
 
 def guarded(f, *a, limit=0.5):
-    """run f; ('ok', value) | ('err', exception name); a run longer than `limit` seconds counts as an error (hang)"""
-    old = signal.signal(signal.SIGALRM, _alarm)
-    signal.setitimer(signal.ITIMER_REAL, limit)
+    """run f; ('ok', value) | ('err', exception name); a run that burns more than `limit` seconds of CPU time counts as an error
+    (hang).  CPU time, not wall time: a heavily loaded machine must not turn a correct read into a 'hang'."""
+    old = signal.signal(signal.SIGPROF, _alarm)
+    signal.setitimer(signal.ITIMER_PROF, limit)
     try:
         return 'ok', f(*a)
     except Hang:
@@ -56,8 +57,8 @@ def guarded(f, *a, limit=0.5):
     except Exception as e:      # noqa
         return 'err', type(e).__name__
     finally:
-        signal.setitimer(signal.ITIMER_REAL, 0)
-        signal.signal(signal.SIGALRM, old)
+        signal.setitimer(signal.ITIMER_PROF, 0)
+        signal.signal(signal.SIGPROF, old)
 
 
 class _CachedCategory:
